@@ -426,6 +426,15 @@ def check(run: Run) -> None:
 
     check_iterable_test(run, m, "C07.R9")
     check_nested_lambda_followed(run, m, used_visitor(m, tctx, m.find_func("remap_by_types", in_module=mod), True), "C07.R10")
+    # "omitting a parameter that has no default raises ValueError": nothing on the way may catch it
+    from .c10 import check_refusals_propagate
+
+    check_refusals_propagate(run, m, "C07.R11")
+    run.rule("C07.R12", "the three operators hand remap_from_lambda the types of the enclosing lambdas' variables (known_types) - a nested operator's lambda is followed knowing them (C01.R1-R3 re-evaluated)")
+    from ..report import Relabel as _Rl
+    from .c01 import check_plumbing as _plumb
+
+    _plumb(_Rl(run, "C07.R12"), m)
 
 
 def _self_fact(a: ast.AST, pol: bool):
